@@ -467,30 +467,38 @@ def annotate(
 
     result = 0
     for path in paths:
-        binary = is_binary(str(path))
-        if binary or is_uncommentable(path) or force_dot_license:
-            new_path = _determine_license_suffix_path(path)
-            if binary:
-                _LOGGER.info(
-                    _(
-                        "'{path}' is a binary, therefore using '{new_path}'"
-                        " for the header"
-                    ).format(path=path, new_path=new_path)
+        try:
+            binary = is_binary(str(path))
+            if binary or is_uncommentable(path) or force_dot_license:
+                new_path = _determine_license_suffix_path(path)
+                if binary:
+                    _LOGGER.info(
+                        _(
+                            "'{path}' is a binary, therefore using '{new_path}'"
+                            " for the header"
+                        ).format(path=path, new_path=new_path)
+                    )
+                path = Path(new_path)
+            result += add_header_to_file(
+                path=path,
+                reuse_info=reuse_info,
+                template=template,
+                template_is_commented=commented,
+                style=style,
+                force_multi=multi_line,
+                skip_existing=skip_existing,
+                skip_unrecognised=skip_unrecognised,
+                fallback_dot_license=fallback_dot_license,
+                merge_copyrights=merge_copyrights,
+                replace=not no_replace,
+                out=sys.stdout,
+            )
+        except (OSError, UnicodeError) as error:
+            click.echo(
+                _("Error: Could not read or write '{path}': {error}").format(
+                    path=path, error=error
                 )
-            path = Path(new_path)
-        result += add_header_to_file(
-            path=path,
-            reuse_info=reuse_info,
-            template=template,
-            template_is_commented=commented,
-            style=style,
-            force_multi=multi_line,
-            skip_existing=skip_existing,
-            skip_unrecognised=skip_unrecognised,
-            fallback_dot_license=fallback_dot_license,
-            merge_copyrights=merge_copyrights,
-            replace=not no_replace,
-            out=sys.stdout,
-        )
+            )
+            result += 1
 
     sys.exit(min(result, 1))
